@@ -344,6 +344,15 @@ void World::inject_can(int bus, const CanRec &c) {
         if (c.can_id & CAN_ERR_FLAG) {  // error message frames are delivered only to sockets whose error filter asks for that class
             if (!(e.can_err_mask & c.can_id & CAN_ERR_MASK)) { count("ev.can_error_frame_filtered"); continue; }
         }
+        if (e.can_filter_set && !(c.can_id & CAN_ERR_FLAG)) {  // receive filters: a frame passes if one of them matches
+            bool pass = false;
+            for (auto &fl : e.can_filters) {
+                bool m = ((c.can_id & fl.can_mask & ~CAN_INV_FILTER) == (fl.can_id & fl.can_mask & ~CAN_INV_FILTER));
+                if (fl.can_id & CAN_INV_FILTER) m = !m;
+                if (m) { pass = true; break; }
+            }
+            if (!pass) { count("ev.can_frame_rejected_by_socket_filter"); continue; }
+        }
         if (c.fd && !e.canfd_enabled) { count("ev.can_fd_frame_not_accepted"); continue; }  // classic sockets do not see FD frames
         if (e.canq.size() >= canq_cap) { count("fault.can_qdrop"); continue; }
         e.canq.push_back(c);
@@ -532,6 +541,11 @@ int __wrap_setsockopt(int fd, int level, int optname, const void *optval, sockle
         e->memberships.push_back(std::vector<uint8_t>(m->mr_address, m->mr_address + 6));
     } else if (level == SOL_CAN_RAW && optname == CAN_RAW_FD_FRAMES && optlen >= sizeof(int)) {
         e->canfd_enabled = *(const int *)optval != 0;
+    } else if (level == SOL_CAN_RAW && optname == CAN_RAW_FILTER) {
+        // as the kernel does: optlen / sizeof(struct can_filter) filters are installed (a length of 0 installs none: nothing is received)
+        size_t n = optlen / sizeof(struct can_filter);
+        e->can_filters.assign((const struct can_filter *)optval, (const struct can_filter *)optval + n);
+        e->can_filter_set = true;
     } else if (level == SOL_CAN_RAW && optname == CAN_RAW_ERR_FILTER && optlen >= sizeof(can_err_mask_t)) {
         e->can_err_mask = *(const can_err_mask_t *)optval;
     } else if (level == SOL_SOCKET && optname == SO_RCVTIMEO && optlen >= sizeof(struct timeval)) {
